@@ -121,7 +121,7 @@ def warm_images_load(layout):
     Images().loads(json.dumps(doc))
 
 
-def images_old_src(sym, layout, with_subvariant, warm=None):
+def images_old_src(sym, layout, with_subvariant, warm=None, empty_arch=None):
     """images 1.0 / 1.1 documents: every source image is re-filed under each binary arch of its variant"""
     if warm is not None:
         warm_images_load(warm)
@@ -133,6 +133,9 @@ def images_old_src(sym, layout, with_subvariant, warm=None):
     for variant, arches, has_src in layout:
         images[variant] = {}
         for a in arches:
+            if a == empty_arch:
+                images[variant][a] = []          # a binary arch that lists no image of its own: it still receives the source images
+                continue
             d = image_dict(sym, "%s_%s" % (variant, a), a)
             if not with_subvariant:
                 del d["subvariant"]
@@ -162,9 +165,13 @@ def images_old_src(sym, layout, with_subvariant, warm=None):
     for variant, arches, has_src in layout:
         sym.check("arches[%s]" % variant, sorted(im.images[variant].keys()) == sorted(arches))
         for a in arches:
+            if a == empty_arch and not has_src:
+                continue
             cell = list(im.images[variant][a])
-            sym.check("count[%s,%s]" % (variant, a), len(cell) == (3 if has_src else 1))
-            sym.check("binary-kept[%s,%s]" % (variant, a), sym.or_(*[sym.same(g.path, bin_dicts[(variant, a)]["path"]) for g in cell]))
+            own = 0 if a == empty_arch else 1
+            sym.check("count[%s,%s]" % (variant, a), len(cell) == (2 + own if has_src else own))
+            if own:
+                sym.check("binary-kept[%s,%s]" % (variant, a), sym.or_(*[sym.same(g.path, bin_dicts[(variant, a)]["path"]) for g in cell]))
             if has_src:
                 for key in (variant, variant + "/2"):
                     s = src_dicts[key]
@@ -272,6 +279,8 @@ def jobs(tier, seed):
     out.append({"harness": "images_old_src", "params": {"layout": LAYOUTS[1], "with_subvariant": True,
                                                        "warm": [("Server", ["x86_64", "ppc64le", "aarch64"], True), ("Client", ["i386"], True)]}})
     out.append({"harness": "images_old_src", "params": {"layout": LAYOUTS[4], "with_subvariant": False, "warm": LAYOUTS[2]}})
+    out.append({"harness": "images_old_src", "params": {"layout": LAYOUTS[1], "with_subvariant": True, "empty_arch": "s390x"}})
+    out.append({"harness": "images_old_src", "params": {"layout": LAYOUTS[2], "with_subvariant": False, "empty_arch": "aarch64"}})
     for lay in LAYOUTS:
         for ws in (True, False):
             out.append({"harness": "images_old_src", "params": {"layout": lay, "with_subvariant": ws}})
@@ -293,6 +302,7 @@ META = {
         "histories: three adds on one manifest (the same arch three times, or a second arbitrary one in between), arch strings up to 8 (thorough 12) characters",
         "old documents: layouts from a catalogue (1-2 variants, 1-3 binary arches, src entry present/absent), every leaf symbolic; "
         "images header version 1.0/1.1 and rpms header version 0.0-0.3 as a symbolic integer; a variant with only a src entry is outside the claim",
+        "old images documents in which one binary arch lists no image of its own (it still receives the source images)",
         "old rpms documents spell their source-package keys canonically, with a '.rpm' suffix, with a directory prefix or both (the same way in the binary and the src section)",
         "JSON text layer replaced by the DocText stub",
         "histories across objects: before an old images document is converted, another one with the same variant names and other arch sets was loaded into another object",
